@@ -92,13 +92,19 @@ Definition array_form (dflt : bool) (argument : option node) (splitted : list st
   let v := match elems with Elem false e :: _ => e | _ => empty_ident end in
   let arg_d := if dflt then match argument with None => Some Null | _ => argument end else argument in
   match elem_at elems 1 with
-  | Some (Arr elems2) => (v, arg_d, Some (parse_modifiers elems2))
   | Some e =>
-      (v, match argument with None => Some e | _ => argument end,
-       match elem_at elems 2 with
-       | Some (Arr elems3) => Some (parse_modifiers elems3)
-       | _ => None
-       end)
+      match as_array e with
+      | Some elems2 => (v, arg_d, Some (parse_modifiers elems2))
+      | None =>
+          (v, match argument with None => Some e | _ => argument end,
+           match elem_at elems 2 with
+           | Some x => match as_array x with
+                       | Some elems3 => Some (parse_modifiers elems3)
+                       | None => None
+                       end
+           | None => None
+           end)
+      end
   | None => (v, arg_d, Some (set_of_list splitted))
   end.
 
